@@ -42,7 +42,10 @@ Definition code_of (c : cause) : exc * Z * option str :=
   end.
 
 (* cursor.sqlstate *)
-Inductive ev := ExecOk | ExecRaises (c : cause).
+Inductive ev :=
+| ExecOk                  (* any successful execute - also one answered by a nop_regexes pattern without reaching the engine *)
+| ExecRaises (c : cause)
+| ExecOther.              (* an exception that is not a connector error at all (sqlglot ParseError, TypeError of a bad binding ...) *)
 Definition sq_step (_ : option str) (e : ev) : option str :=
   match e with
   | ExecOk => None
@@ -50,6 +53,7 @@ Definition sq_step (_ : option str) (e : ev) : option str :=
                     | (ProgrammingError, _, st) => st      (* except ProgrammingError: self._sqlstate = e.sqlstate *)
                     | (DatabaseError, _, _) => None        (* not caught there: stays reset *)
                     end
+  | ExecOther => None                                       (* reset at the start of execute, nothing sets it *)
   end.
 Definition sq_run (es : list ev) : option str := fold_left sq_step es None.
 
@@ -72,6 +76,7 @@ Definition run_c07_code (x : sexp) : sexp :=
 Definition run_c07_sqlstate (x : sexp) : sexp :=
   match dec_list (fun e => match e with
                            | L [] => Some ExecOk
+                           | L [L []] => Some ExecOther
                            | L [c] => option_map ExecRaises (dec_cause c)
                            | _ => None end) x with
   | Some es => enc_opt enc_str (sq_run es)
